@@ -200,3 +200,65 @@ Example C06_grad_nonvacuous :
     at_ (nd_D DU du_D (e_M DU x)) [0; 0] <> du0 /\
     exists G gs, get_unitary_and_grad DU du0 du1 du_add du_mul du_conj unit (fun T => T) c [] = Some (G, gs).
 Proof. exact (conj du_D_add (conj du_D_mul du_example)). Qed.
+
+(* ---- restricted iteration: CircuitGridIterator (circuit/Iter.v follows iterator.py statement by statement) ----
+   For ANY grid function `cell` satisfying the grid invariant (an operation sits on every qudit of its location),
+   any start / end (arbitrary integer pairs, clipped by __init__), any of the three modes (whole circuit, qudit list,
+   region), exclude, reverse: if the iteration finishes (Ok: no IndexError, fuel not exhausted) the sequence of
+   (cycle, pointer qudit, operation) it yields is EXACTLY the operations with a grid point in the requested area
+   (start <= point <= end in tuple order, requested qudit, cycle inside that qudit's interval; with exclude only those
+   entirely on requested qudits / intervals), in grid order (reverse grid order with reverse), each operation once
+   (a later element of the same cycle is not on a qudit of an earlier one). *)
+From BQ Require Import circuit.Iter circuit.IterThm.
+Open Scope Z_scope.
+Theorem C06_iteration_exact_partial : forall (A : Type) (loc : A -> list Z) (cell : Z -> Z -> option (option A))
+    nq nc start end_ qr ex rv out,
+  grid_ok A loc cell ->
+  iterate A loc cell nq nc start end_ qr ex rv = Ok out ->
+  let c0 := req_cfg nq nc start end_ qr ex rv in
+  Forall (fun e => in_area c0 (cyc A e) (qd A e) = true /\ cell (cyc A e) (qd A e) = Some (Some (opf A e)) /\
+                   (ex = true -> inside A loc c0 (cyc A e) (opf A e) = true)) out /\
+  ForallOrdPairs (fun e1 e2 => before c0 (pt A e1) (pt A e2) = true /\
+                               (cyc A e1 = cyc A e2 -> memZ (qd A e2) (loc (opf A e1)) = false)) out /\
+  (forall cy q op, in_area c0 cy q = true -> cell cy q = Some (Some op) ->
+     (ex = true -> inside A loc c0 cy op = true) -> exists q', In (cy, q', op) out).
+Proof. exact iterate_exact. Qed.
+
+(* full statement: additionally the iteration always finishes without IndexError when the area lies on the grid.
+   Termination of the model (enough fuel) is NOT proved - validated by the correspondence run only; IndexError-freedom
+   is C06_iteration_no_index_error below; the statement as written is FALSE for a circuit without cycles
+   (C06_iteration_empty_circuit_end_refuted). *)
+Definition C06_iteration_exact_full : Prop := forall (A : Type) (loc : A -> list Z) (cell : Z -> Z -> option (option A))
+    nq nc start end_ qr ex rv,
+  grid_ok A loc cell -> (forall cy q, 0 <= cy < nc -> 0 <= q < nq -> cell cy q <> None) ->
+  (forall q iv, lookup q (req_region nq nc qr) = Some iv -> 0 <= q < nq /\ 0 <= fst iv) -> req_region nq nc qr <> [] ->
+  exists out, iterate A loc cell nq nc start end_ qr ex rv = Ok out.
+
+(* the only possible IndexError is the access to a grid point of the requested area: if every point of the area is on the
+   grid the iteration does not raise IndexError (the hypothesis is what fails in finding C06-F3) *)
+Theorem C06_iteration_no_index_error : forall (A : Type) (loc : A -> list Z) (cell : Z -> Z -> option (option A))
+    nq nc start end_ qr ex rv,
+  (forall cy q, in_area (req_cfg nq nc start end_ qr ex rv) cy q = true -> cell cy q <> None) ->
+  iterate A loc cell nq nc start end_ qr ex rv <> Err E_Index.
+Proof. exact iterate_no_index_error. Qed.
+
+(* __init__: the configuration is well formed and clipping start / end to the region does not change the area *)
+Theorem C06_iteration_init : forall nq nc start end_ qr ex rv c p,
+  it_init nq nc start end_ qr ex rv = Ok (c, p) ->
+  cfg_wf c /\ p = first_pt c /\ c_exclude c = ex /\ c_reverse c = rv /\ c_region c = req_region nq nc qr /\
+  forall cy q, in_area c cy q = in_area (mkcfg start (req_end nq nc end_) (req_region nq nc qr) ex rv 0 0 0 0) cy q.
+Proof. exact it_init_wf. Qed.
+
+(* non-vacuity: a grid satisfying the invariant on which the iteration finishes with a non-empty answer; end beyond
+   the last cycle is clipped; reverse order; with exclude the straddling operations are dropped *)
+Example C06_iteration_nonvacuous :
+  grid_ok xop snd ex_cell /\
+  iterate xop snd ex_cell 3 2 (0, 1) (Some (5, 0)) (QQudits [1; 2]) false true = Ok [(1, 1, (1, [0; 1])); (0, 1, (0, [0; 1]))] /\
+  iterate xop snd ex_cell 3 2 (0, 0) None (QQudits [1; 2]) true false = Ok [].
+Proof. exact (conj ex_grid_ok (conj ex_iterate ex_iterate_exclude)). Qed.
+
+(* finding C06-F3: on a circuit without cycles an explicit end point is clipped to cycle 0 (the default region is
+   (0, max(num_cycles - 1, 0))), which does not exist: IndexError instead of an empty iteration *)
+Theorem C06_iteration_empty_circuit_end_refuted :
+  exists nq start end_, x_iterate [] nq start (Some end_) QNone false false = Err E_Index.
+Proof. exact (ex_intro _ 2 (ex_intro _ (0, 0) (ex_intro _ (0, 0) empty_circuit_end_index_error))). Qed.
